@@ -51,6 +51,11 @@ def extra_codec(ctx):
             w = int(kind[1:])
             val = _abs_value(kind, key)
             enc, dec = o[1], o[2]
+            if "!" in dec:
+                # the harness decoded the same encoding twice, or encoded the same value twice, and got two answers
+                report_violation(ctx, "oracle", "the codec does not give the same answer twice: " + dec.split("!", 1)[1],
+                                 {"commands": [c], "implementation": out[i]}, "codec-twice-%d" % i)
+                dec = dec.split("!", 1)[0]
             if len(enc) != 2 * w:
                 report_violation(ctx, "oracle", "encoding of %s has %d bytes, expected %d" % (c, len(enc) // 2, w),
                                  {"commands": [c], "implementation": out[i]}, "codec-len-%d" % i)
